@@ -15,7 +15,9 @@ macro_rules! opaque {
         impl Clone for $n { #[verifier::external_body] fn clone(&self) -> (r: Self) ensures r == *self { unimplemented!() } }
     )* } }
 }
-opaque!(DesiredFilterNotSupported, AmqpError, SourceS, TargetS, TargetArch, Props, Unsettled, SessionStopReason, ReceiverAttachExchange, SenderAttachExchange, SenderSettleMode, ReceiverSettleMode, VerifyErr);
+opaque!(DesiredFilterNotSupported, AmqpError, SourceS, TargetS, TargetArch, Props, Unsettled, SessionStopReason, ReceiverAttachExchange, SenderAttachExchange, ReceiverSettleMode, VerifyErr);
+//@@ type file=fe2o3-amqp-types/src/definitions/snd_settle_mode.rs kind=enum name=SenderSettleMode clone
+//@@ end
 pub struct Handle(pub u32);
 pub struct InputHandle(pub u32);
 impl InputHandle { pub fn from(h: Handle) -> (r: Self) ensures r.0 == h.0 { InputHandle(h.0) } }
@@ -91,6 +93,56 @@ impl ReceiverLink {
             && final(self).flow_state.initial_delivery_count == remote_attach.initial_delivery_count->Some_0,          // [C09.attach.delivery-count-from-sender] the receiver's view of the sender's delivery-count starts from the initial-delivery-count the sender states in its attach
         r is Ok ==> final(self).flow_state.link_credit == old(self).flow_state.link_credit,
         r is Ok ==> remote_attach.source is Some,                                                    // [C13.link.attach-without-source-refused] no source = the peer refuses to create the terminus: not attached
+//@@ end
+}
+
+//@@ type file=fe2o3-amqp/src/link/error.rs kind=enum name=SenderAttachError
+//@@ subst `definitions::Error` => `AmqpError` rule=R11
+//@@ end
+impl ErrInto<SenderAttachError> for SenderAttachError { open spec fn conv(self) -> SenderAttachError { self } fn err_into(self) -> (r: SenderAttachError) { let e = self; assert(e == <SenderAttachError as ErrInto<SenderAttachError>>::conv(self)); e } }
+impl SourceS {
+    #[verifier::external_body]
+    pub fn verify_as_sender(&self, other: &SourceS) -> (r: Result<(), SenderAttachError>) { unimplemented!() }
+}
+impl TargetS {
+    #[verifier::external_body]
+    pub fn verify_as_sender(&self, other: &TargetS) -> (r: Result<(), SenderAttachError>) { unimplemented!() }
+}
+pub struct SenderLink {
+    pub local_state: LinkState, pub input_handle: Option<InputHandle>, pub snd_settle_mode: SenderSettleMode, pub rcv_settle_mode: ReceiverSettleMode,
+    pub source: Option<SourceS>, pub target: Option<TargetS>, pub max_message_size: u64,
+    pub verify_incoming_source: bool, pub verify_incoming_target: bool,
+}
+impl SenderLink {
+    #[verifier::external_body]
+    pub fn merge_properties(&mut self, p: Props)
+        ensures *final(self) == *old(self),
+    { unimplemented!() }
+    #[verifier::external_body]
+    pub fn handle_unsettled_in_attach(&mut self, u: Option<Unsettled>) -> (r: Result<SenderAttachExchange, SenderAttachError>)
+        ensures *final(self) == *old(self),
+    { unimplemented!() }
+
+//@@ fn file=fe2o3-amqp/src/link/sender_link.rs impl=`~impl<T>endpoint::LinkAttachforSenderLink<T>` name=on_incoming_attach
+//@@ qmark
+//@@ orsplit
+//@@ ret Result<SenderAttachExchange, SenderAttachError>
+//@@ subst `use self::source::VerifySource;` => `` rule=R6
+//@@ subst `.map(|t| T::try_from(*t)) .transpose() .map_err(|_v0| SenderAttachError::CoordinatorIsNotImplemented)?` => `;let target = match target { Some(t) => match TargetS::try_from(unbox(t)) { Ok(t) => Some(t), Err(_e) => return Err(SenderAttachError::CoordinatorIsNotImplemented) }, None => None }` rule=R19
+//@@ subst `self.properties_mut(|local_properties| { local_properties .get_or_insert_with(Default::default) .as_inner_mut() .extend(remote_properties.into_inner()); })` => `self.merge_properties(remote_properties)` rule=R9
+//@@ spec
+    ensures
+        (match (old(self).local_state, remote_attach.incomplete_unsettled) {
+            (LinkState::AttachSent, false) => final(self).local_state is Attached,
+            (LinkState::IncompleteAttachSent, _) | (LinkState::AttachSent, true) => final(self).local_state is IncompleteAttachExchanged,
+            (LinkState::Unattached, false) | (LinkState::Detached, false) => final(self).local_state is AttachReceived,
+            (LinkState::Unattached, true) | (LinkState::Detached, true) => final(self).local_state is IncompleteAttachReceived,
+            _ => r == Err::<SenderAttachExchange, SenderAttachError>(SenderAttachError::IllegalState) && *final(self) == *old(self),
+        }),                                                                                          // [C13.link.attach-received-state] [C15.link.duplicate-attach-refused]
+        r is Ok ==> final(self).input_handle is Some && final(self).input_handle->Some_0.0 == remote_attach.handle.0,   // [C11.link.input-handle-from-attach]
+        r is Ok ==> remote_attach.target is Some,                                                    // [C13.link.attach-without-target-refused] a null target in the receiver's attach = it refuses to create the terminus: the sender does not consider itself attached
+        r is Ok ==> final(self).rcv_settle_mode == remote_attach.rcv_settle_mode,                    // [C02.attach.rcv-settle-mode-from-receiver] the receiver's settle mode in use is the one ITS attach states (it decides whether the sender owes a settling disposition)
+        r is Ok ==> !((old(self).snd_settle_mode is Settled && remote_attach.snd_settle_mode is Unsettled) || (old(self).snd_settle_mode is Unsettled && remote_attach.snd_settle_mode is Settled)),   // [C02.attach.snd-settle-mode-conflict-refused]
 //@@ end
 }
 
